@@ -99,7 +99,18 @@ structure EC where
 /-- The vote `SchedulerCommitment.Add` stores: `nil` (here `none`) for a failure. -/
 def EC.vote (e : EC) : Option Nat := if e.failure then none else some e.hash
 
-/-- `SchedulerCommitment`. -/
+/-- `SchedulerCommitment`.
+
+Aliasing hazard outside the model: Go stores `Commitment *ExecutorCommitment`, a *pointer* to the
+caller's value (`sc.Commitment = ec`, votes.go:43), whereas this model stores the commitment by
+value. The theorems therefore say nothing about the pointee changing after admission — e.g. the
+transaction handler `executorCommit` passes `&commit` of its range variable; with a per-iteration
+variable (Go ≥ 1.22 semantics, as written) every admitted commitment has its own copy, but a
+variable hoisted out of the loop would leave `sc.Commitment` pointing at the LAST commitment of the
+transaction (votes tallied correctly, block built from another node's header). That the stored
+commitment at `HighestRank` is byte-identical to what the chosen scheduler signed, and that a Normal
+block carries exactly its header roots, is checked model-free on the real `executorCommit` +
+`tryFinalizeRoundInsideTx` by pooldrv (signature `finalized-header-not-schedulers-commitment`). -/
 structure SC where
   commitment : Option EC := none
   votes : Nat → Option (Option Nat) := fun _ => none
